@@ -155,7 +155,9 @@ fn callback(ev: &verif_sync::Event) {
             }
             let mut g = CTL.lock().unwrap_or_else(|e| e.into_inner());
             let c = g.as_mut().expect("ctl");
-            if ev.op == Op::Lock && !ev.after && c.lock_holder.is_some() && (c.frozen || c.w2_at_lock) {
+            if ev.op == Op::Lock && !ev.after && c.lock_holder.is_some() && (c.frozen || c.w2_at_lock || c.lock_holder == Some(Role::Solo)) {
+                // (a blocking lock requested while the calling thread itself
+                // holds the lock waits for ever, too)
                 drop(g);
                 panic!("{}", WOULD_WAIT);
             }
@@ -207,6 +209,9 @@ struct Scenario {
     solo_pause: Option<(usize, usize)>,
     /// SoloOp::TryUpdate: this many calls in a row (increasing bases)
     repeat: usize,
+    /// the lock was poisoned beforehand (an update with a mismatched voucher
+    /// panicked inside the critical section); no writer is active
+    poisoned: bool,
 }
 
 fn scenario_json(idx: u64, s: &Scenario) -> Json {
@@ -220,6 +225,7 @@ fn scenario_json(idx: u64, s: &Scenario) -> Json {
         .with("second_writer_blocked_behind", Json::Bool(s.second_writer))
         .with("solo_op", Json::Str(format!("{:?}", s.solo_op)))
         .with("solo_calls_in_a_row", Json::U(s.repeat as u64))
+        .with("lock_poisoned_beforehand", Json::Bool(s.poisoned))
         .with("solo_paused_at_event_and_writer_updates_meanwhile", match s.solo_pause {
             None => Json::Null,
             Some((j, c)) => Json::Arr(vec![Json::U(j as u64), Json::U(c as u64)]),
@@ -265,7 +271,17 @@ fn w1_base(i: usize, salt: u64) -> u64 {
 fn run_scenario(s: &Scenario, salt: u64) -> Result<Outcome, Fail> {
     *CTL.lock().unwrap_or_else(|e| e.into_inner()) = Some(Ctl::default());
     let abt: Arc<AtomicBaseTime> = Arc::new(AtomicBaseTime::new());
-    let total_updates = s.pre_complete + 1 + s.solo_pause.map(|p| p.1).unwrap_or(0);
+    let total_updates = if s.poisoned { 0 } else { s.pre_complete + 1 + s.solo_pause.map(|p| p.1).unwrap_or(0) };
+    if s.poisoned {
+        // Poison the writer lock: an update whose voucher does not match dies
+        // inside the critical section (no role: not instrumented, not frozen).
+        let abt0 = abt.clone();
+        let b = salt + 7_000;
+        let _ = std::thread::spawn(move || {
+            let _ = std::panic::catch_unwind(std::panic::AssertUnwindSafe(|| abt0.update((b, CRATE_PARAMS.vouch(b + 1)))));
+        })
+        .join();
+    }
 
     // Writer 1: `pre_complete` whole updates, then the target update (frozen at
     // event `freeze_at`), then (pause variant) further updates.
@@ -418,7 +434,7 @@ fn judge(s: &Scenario, o: &Outcome, salt: u64) -> Result<(), Fail> {
     let v = |sig: &str, what: String| Fail { sig: sig.to_string(), what, inconclusive: false };
     let (base, bits, try_ok, try_any) = match &o.solo_result {
         Err(p) if p.contains("WOULD-WAIT") => {
-            return Err(v("would-wait", format!("{:?} requested a blocking lock while the lock's holder was suspended: it would wait for the writer", s.solo_op)));
+            return Err(v("would-wait", format!("{:?} requested a blocking lock that cannot be granted (its holder is suspended, or is the calling thread itself): it would wait", s.solo_op)));
         }
         Err(p) if p.contains("TOO-MANY-STEPS") => {
             return Err(v("unbounded-steps", format!("{:?} performed more than {} instrumented steps without completing (it spins instead of finishing in a bounded number of its own steps)", s.solo_op, STEP_LIMIT)));
@@ -466,7 +482,7 @@ fn judge(s: &Scenario, o: &Outcome, salt: u64) -> Result<(), Fail> {
         return Err(Fail { sig: "torn".into(), what: format!("returned base {} with a voucher for another value", base), inconclusive: false });
     }
     let total_updates = s.pre_complete + 1 + s.solo_pause.map(|p| p.1).unwrap_or(0);
-    let mut members: Vec<u64> = vec![0, salt + 900_000];
+    let mut members: Vec<u64> = vec![0, salt + 900_000, salt + 7_000];
     for j in 0..s.repeat as u64 {
         members.push(salt + 5_000_000 + j);
     }
@@ -476,7 +492,7 @@ fn judge(s: &Scenario, o: &Outcome, salt: u64) -> Result<(), Fail> {
     if !members.contains(&base) {
         return Err(v("foreign-pair", format!("returned base {} that nobody passed to an update", base)));
     }
-    if s.pre_complete > 0 && s.writer_op == WriterOp::Update {
+    if s.pre_complete > 0 && s.writer_op == WriterOp::Update && !s.poisoned {
         let floor = w1_base(s.pre_complete - 1, salt);
         if base < floor {
             return Err(v("stale-completed", format!("returned base {} although an update to {} had completed before the call began", base, floor)));
@@ -488,7 +504,7 @@ fn judge(s: &Scenario, o: &Outcome, salt: u64) -> Result<(), Fail> {
         if held && try_any {
             return Err(v("try_update-true-while-locked", "try_update returned true while another writer held the lock".into()));
         }
-        if !held && s.solo_pause.is_none() && !try_ok {
+        if !held && s.solo_pause.is_none() && !try_ok && !s.poisoned {
             return Err(v("try_update-false-while-free", "try_update returned false although no writer held the lock and its base was the newest".into()));
         }
         if try_ok && base != salt + 5_000_000 + s.repeat as u64 - 1 {
@@ -611,7 +627,7 @@ pub fn run(ctx: &mut Ctx) {
                         if second && (writer_op == WriterOp::TryUpdate || pre > 1) {
                             continue;
                         }
-                        scenarios.push(Scenario { target_static: false, writer_op, pre_complete: pre, freeze_at, second_writer: second, solo_op, solo_pause: None, repeat: 1 });
+                        scenarios.push(Scenario { target_static: false, writer_op, pre_complete: pre, freeze_at, second_writer: second, solo_op, solo_pause: None, repeat: 1, poisoned: false });
                     }
                 }
             }
@@ -622,14 +638,19 @@ pub fn run(ctx: &mut Ctx) {
     let many = ctx.args.get_u64("try-repeat", 80) as usize;
     for writer_op in [WriterOp::Update, WriterOp::TryUpdate] {
         for freeze_at in 0..max_freeze {
-            scenarios.push(Scenario { target_static: false, writer_op, pre_complete: 1, freeze_at, second_writer: false, solo_op: SoloOp::TryUpdate, solo_pause: None, repeat: many });
+            scenarios.push(Scenario { target_static: false, writer_op, pre_complete: 1, freeze_at, second_writer: false, solo_op: SoloOp::TryUpdate, solo_pause: None, repeat: many, poisoned: false });
         }
+    }
+    // a poisoned writer lock and nobody else around: snapshot, try_update and
+    // several try_updates in a row must still complete on their own
+    for (solo_op, repeat) in [(SoloOp::Snapshot, 1usize), (SoloOp::TryUpdate, 1), (SoloOp::TryUpdate, 3), (SoloOp::TryUpdate, many)] {
+        scenarios.push(Scenario { target_static: false, writer_op: WriterOp::Update, pre_complete: 0, freeze_at: usize::MAX, second_writer: false, solo_op, solo_pause: None, repeat, poisoned: true });
     }
     // pause variants: solo parked at each of its first 8 events while the writer completes c updates
     for j in 0..8usize {
         for c in 0..=2usize {
             for freeze_at in [0usize, 7, 9, 11, 13] {
-                scenarios.push(Scenario { target_static: false, writer_op: WriterOp::Update, pre_complete: 1, freeze_at, second_writer: false, solo_op: SoloOp::Snapshot, solo_pause: Some((j, c)), repeat: 1 });
+                scenarios.push(Scenario { target_static: false, writer_op: WriterOp::Update, pre_complete: 1, freeze_at, second_writer: false, solo_op: SoloOp::Snapshot, solo_pause: Some((j, c)), repeat: 1, poisoned: false });
             }
         }
     }
@@ -677,6 +698,9 @@ pub fn run(ctx: &mut Ctx) {
                     if s.second_writer && o.writer_frozen && o.lock_held_when_frozen {
                         ctx.feature("park.second_writer_blocked");
                     }
+                    if s.poisoned {
+                        ctx.feature("park.solo_call_on_a_poisoned_lock");
+                    }
                     if s.solo_pause.is_some() {
                         ctx.feature("park.solo_paused_mid_read");
                         if steps > 4 {
@@ -692,8 +716,8 @@ pub fn run(ctx: &mut Ctx) {
                         }
                     }
                     ctx.ops += o.solo_events.len() as u64;
-                    if o.writer_frozen || s.solo_pause.is_some() {
-                        ctx.signature(mix(&[s.writer_op as u64, s.pre_complete as u64, s.freeze_at as u64, s.second_writer as u64, s.solo_op as u64, s.solo_pause.map(|p| (p.0 * 8 + p.1 + 1) as u64).unwrap_or(0), s.repeat as u64]));
+                    if o.writer_frozen || s.solo_pause.is_some() || s.poisoned {
+                        ctx.signature(mix(&[s.writer_op as u64, s.pre_complete as u64, s.freeze_at as u64, s.second_writer as u64, s.solo_op as u64, s.solo_pause.map(|p| (p.0 * 8 + p.1 + 1) as u64).unwrap_or(0), s.repeat as u64, s.poisoned as u64]));
                     }
                     if idx % 97 == 0 {
                         ctx.sample(3, || scenario_json(idx, s).with("solo_atomic_steps", Json::U(steps)).with("writer_was_frozen", Json::Bool(o.writer_frozen)));
